@@ -1,2 +1,256 @@
-(* C04 - property theorems only. *)
-From HV Require Import Prelude Tracts C04_Model C04_Check C04_Proofs.
+(* C04 - property theorems only.  Vocabulary (C04_Model / C04_Check / C04_Proofs):
+     geno            samples, variant records (id, chrom, pos, alleles), data and ancestry rows
+                     (one pair of strand rows per sample), label -> code dictionary
+     find_var        Genotypes._var_idx: column and record of a variant ID
+     index_of        Python's list.index: first position of an allele in the allele list
+     carries G d v   strand row d holds, in the column of v's variant, the index of v's allele
+     has_anc G a l v strand ancestry row a holds, in that column, the code of label l
+     strand_prop     every variant of the haplotype is carried (and, with ancestry, has the label)
+     rows G anc      the samples' (data, ancestry) rows
+     hap_okb / hap_presentb   every variant and allele / every variant of the haplotype exists in G
+     spec_col / spec_mat      the cell-by-cell specification as a column / matrix *)
+From HV Require Import Prelude Tracts C04_Model C04_Check C04_Proofs C04_ProofsSet C04_ProofsFile C04_ProofsSpec C04_ProofsAnc C04_Legacy.
+
+(* -- meaning of the two look-ups the statements are phrased with ------------------------- *)
+
+Theorem C04_index_of_spec : forall x l k,
+  index_of x l = Some k ->
+  0 <= k /\ nth_error l (Z.to_nat k) = Some x
+  /\ forall m, (m < Z.to_nat k)%nat -> nth_error l m <> Some x.
+Proof. exact index_of_spec. Qed.
+Print Assumptions C04_index_of_spec.
+
+Theorem C04_find_var_spec : forall id vs j gv,
+  find_var id vs 0 = Some (j, gv) ->
+  (0 <= j)%nat /\ nth_error vs (j - 0) = Some gv /\ gv_id gv = id.
+Proof. intros id vs. exact (find_var_spec id vs 0%nat). Qed.
+Print Assumptions C04_find_var_spec.
+
+(* -- hap_transform_spec: Haplotype.transform and HaplotypeAncestry.transform ---------------- *)
+
+(* result (s,t) = true <-> for every variant of the haplotype the strand's cell is the index of
+   the listed allele (and, with ancestry, the strand's ancestry cell is the code of the label) *)
+Theorem C04_hap_transform_spec : forall G (anc : bool) h col,
+  has_dup (map gv_id (g_vars G)) = false ->
+  (if anc then hap_transform_anc h G else hap_transform h G) = Ok col ->
+  length col = length (rows G anc) /\
+  forall s da, nth_error (rows G anc) s = Some da ->
+    exists b0 b1, nth_error col s = Some (b0, b1)
+      /\ (b0 = true <-> strand_prop G anc h (fst (fst da)) (fst (snd da)))
+      /\ (b1 = true <-> strand_prop G anc h (snd (fst da)) (snd (snd da))).
+Proof. exact hap_transform_spec_gen. Qed.
+Print Assumptions C04_hap_transform_spec.
+
+(* it answers exactly when every variant and allele exists (whatever the ancestry label);
+   otherwise it raises ValueError - it never guesses *)
+Theorem C04_hap_transform_total : forall G (anc : bool) h,
+  has_dup (map gv_id (g_vars G)) = false ->
+  (hap_okb G h = true ->
+     exists col, (if anc then hap_transform_anc h G else hap_transform h G) = Ok col)
+  /\ (hap_okb G h = false ->
+     (if anc then hap_transform_anc h G else hap_transform h G) = Err E_Value).
+Proof. exact hap_transform_total. Qed.
+Print Assumptions C04_hap_transform_total.
+
+(* a label occurring nowhere in the data never matches *)
+Theorem C04_absent_label_no_match : forall G h d a,
+  label_code (g_labels G) (h_anc h) = None -> h_vars h <> [] ->
+  spec_strand G true h d a = false.
+Proof. exact absent_label_no_match. Qed.
+Print Assumptions C04_absent_label_no_match.
+
+(* -- haps_transform_eq_single: the set-wise implementations equal the single ones ------------ *)
+
+Theorem C04_haps_transform_eq_single : forall G H0,
+  has_dup (map gv_id (g_vars G)) = false ->
+  forallb (hap_presentb G) (real_haps H0) = true ->
+  match haps_transform H0 G with
+  | Ok (recs, M) =>
+      recs = recs_of (real_haps H0) /\
+      length M = length (rows G false) /\
+      forall i h, nth_error (real_haps H0) i = Some h -> hap_transform h G = Ok (column_of M i)
+  | Err k =>
+      k = E_Value /\ exists h, In h (real_haps H0) /\ hap_transform h G = Err E_Value
+  end.
+Proof. intros G H0. exact (haps_transform_eq_single_gen G false H0). Qed.
+Print Assumptions C04_haps_transform_eq_single.
+
+Theorem C04_haps_transform_anc_eq_single : forall G H0,
+  has_dup (map gv_id (g_vars G)) = false ->
+  forallb (hap_presentb G) (real_haps H0) = true ->
+  match haps_transform_anc H0 G with
+  | Ok (recs, M) =>
+      recs = recs_of (real_haps H0) /\
+      length M = length (rows G true) /\
+      forall i h, nth_error (real_haps H0) i = Some h -> hap_transform_anc h G = Ok (column_of M i)
+  | Err k =>
+      k = E_Value /\ exists h, In h (real_haps H0) /\ hap_transform_anc h G = Err E_Value
+  end.
+Proof. intros G H0. exact (haps_transform_eq_single_gen G true H0). Qed.
+Print Assumptions C04_haps_transform_anc_eq_single.
+
+(* closed form: the set-wise result is the specification matrix; it fails iff something is absent *)
+Theorem C04_haps_transform_closed : forall G (anc : bool) H0,
+  has_dup (map gv_id (g_vars G)) = false ->
+  let H := real_haps H0 in
+  (forallb (hap_okb G) H = true -> set_tr anc H0 G = Ok (recs_of H, spec_mat G anc H))
+  /\ (forallb (hap_okb G) H = false ->
+        exists k, set_tr anc H0 G = Err k /\ (forallb (hap_presentb G) H = true -> k = E_Value)).
+Proof. exact haps_transform_closed_gen. Qed.
+Print Assumptions C04_haps_transform_closed.
+
+(* -- transform_haps_records ---------------------------------------------------------------------- *)
+
+Theorem C04_transform_haps_records : forall t recs samples M,
+  transform_haps t = Ok (recs, samples, M) ->
+  recs = recs_of (t_out_haps t)
+  /\ samples = t_out_samples t
+  /\ exists anc,
+       ancestry_matrix false (t_anc t) (t_sm t) (t_vm t) (t_out_samples t) (t_loaded t) = Ok anc
+       /\ M = spec_mat (t_geno t anc) (uses_anc t) (t_out_haps t)
+       /\ forallb (hap_okb (t_geno t anc)) (t_out_haps t) = true.
+Proof. exact transform_haps_records_lemma. Qed.
+Print Assumptions C04_transform_haps_records.
+
+(* the model's answer on a well-formed file IS the file-level specification f_expected: records of
+   the selected haplotypes whose variants all lie in the file and region, in .hap order; requested
+   samples in file order; each cell decided on the full file by variant ID, allele position and the
+   ancestry label of the sample *by name* (POP cell or .bp tract) - see fcell_spec below *)
+Theorem C04_transform_haps_meets_spec : forall t out,
+  wf_file t -> transform_haps t = Ok out -> out = f_expected t.
+Proof. exact transform_haps_meets_spec_lemma. Qed.
+Print Assumptions C04_transform_haps_meets_spec.
+
+Theorem C04_fcell_spec : forall t s d pr strand h,
+  fcell t s d pr strand h = true <->
+  forall v, In v (h_vars h) ->
+    exists j gv i, avail t v = Some (j, gv)
+      /\ index_of (hv_allele v) (gv_alleles gv) = Some i
+      /\ cell d j = i
+      /\ (uses_anc t = true -> anc_label t s pr strand j gv = Some (h_anc h)).
+Proof. exact fcell_spec. Qed.
+Print Assumptions C04_fcell_spec.
+
+(* -- ancestry_source_irrelevant -------------------------------------------------------------------- *)
+
+Theorem C04_ancestry_source_irrelevant : forall t a1 a2,
+  a1 <> NoAnc -> a2 <> NoAnc ->
+  ancestry_matrix false a1 (t_sm t) (t_vm t) (t_out_samples t) (t_loaded t)
+  = ancestry_matrix false a2 (t_sm t) (t_vm t) (t_out_samples t) (t_loaded t) ->
+  transform_haps (with_anc t a1) = transform_haps (with_anc t a2).
+Proof. exact ancestry_source_irrelevant_lemma. Qed.
+Print Assumptions C04_ancestry_source_irrelevant.
+
+(* -- soundness of the boolean checkers evaluated on the implementation's output --------------------- *)
+
+Theorem C04_holds_single_sound : forall G anc h o,
+  holds_single1 G anc h o = true ->
+  match o with
+  | Ok col =>
+      hap_presentb G h = true /\
+      length col = length (rows G anc) /\
+      forall s da, nth_error (rows G anc) s = Some da ->
+        exists b0 b1, nth_error col s = Some (b0, b1)
+          /\ (b0 = true <-> strand_prop G anc h (fst (fst da)) (fst (snd da)))
+          /\ (b1 = true <-> strand_prop G anc h (snd (fst da)) (snd (snd da)))
+  | Err _ => exists v, In v (h_vars h) /\ var_col G v = None
+  end.
+Proof. exact holds_single1_sound. Qed.
+Print Assumptions C04_holds_single_sound.
+
+Theorem C04_holds_api_sound : forall c,
+  holds_api c = true ->
+  has_dup (map gv_id (g_vars (a_G c))) = false ->
+  let G := a_G c in let anc := a_anc c in let H := real_haps (a_H c) in
+  (forall i h o, nth_error H i = Some h -> nth_error (a_single c) i = Some o ->
+     match o with
+     | Ok col => hap_presentb G h = true /\ col = spec_col G anc h
+     | Err _ => exists v, In v (h_vars h) /\ var_col G v = None
+     end)
+  /\ match a_set c with
+     | Ok (recs, M) =>
+         let Hp := filter (hap_presentb G) H in
+         recs = recs_of Hp /\ M = spec_mat G anc Hp
+     | Err _ => exists h v, In h H /\ In v (h_vars h) /\ var_col G v = None
+     end.
+Proof. exact holds_api_sound. Qed.
+Print Assumptions C04_holds_api_sound.
+
+Theorem C04_holds_file_sound : forall c,
+  holds_file c = true ->
+  match f_obs c with
+  | Ok out => out = f_expected (f_in c) /\ (f_omitted (f_in c) = true -> f_warned c = true)
+  | Err k => k = E_Unobserved \/ f_wellformed (f_in c) = false
+  end.
+Proof. exact holds_file_sound_lemma. Qed.
+Print Assumptions C04_holds_file_sound.
+
+Theorem C04_model_passes_holds_file : forall t out,
+  wf_file t -> transform_haps t = Ok out -> holds_file (mkf t (Ok out) (warns_missing t)) = true.
+Proof. exact model_passes_holds_file_lemma. Qed.
+Print Assumptions C04_model_passes_holds_file.
+
+(* "reported and omitted": whenever a selected haplotype is left out, the warning is logged *)
+Theorem C04_omitted_is_reported : forall t out,
+  wf_file t -> transform_haps t = Ok out -> f_omitted t = true -> warns_missing t = true.
+Proof. exact omitted_is_reported_lemma. Qed.
+Print Assumptions C04_omitted_is_reported.
+
+(* POP fields that say what the .bp file says give the same output as the .bp file *)
+Theorem C04_pop_bp_same : forall t bp m,
+  pop_from_bp bp (t_samples t) (t_vars t) = Some m ->
+  transform_haps (with_anc t (PopField m)) = transform_haps (with_anc t (BpFile bp)).
+Proof. exact pop_bp_same_lemma. Qed.
+Print Assumptions C04_pop_bp_same.
+
+(* -- the pinned tree refuted (witnesses = corpus/C04) and satisfiable hypotheses ---------------------- *)
+
+Example C04_legacy_absent_label_overflow_refuted :
+  forallb (hap_okb G_overflow) (real_haps H_overflow) = true
+  /\ haps_transform_anc_legacy H_overflow G_overflow = Err E_Overflow
+  /\ haps_transform_anc H_overflow G_overflow = Ok ([(7, 1, 10)], [[(false, false)]]).
+Proof. exact legacy_absent_label_overflow_refuted_lemma. Qed.
+Print Assumptions C04_legacy_absent_label_overflow_refuted.
+
+Example C04_legacy_ancestry_multiallelic_refuted :
+  spec_col G_multi true h_multi = [(true, false)]
+  /\ hap_transform_anc_legacy h_multi G_multi = Ok [(false, true)]
+  /\ hap_transform_anc h_multi G_multi = Ok [(true, false)]
+  /\ haps_transform_anc_gen true false [h_multi] G_multi = Ok ([(7, 1, 10)], [[(false, true)]])
+  /\ haps_transform_anc [h_multi] G_multi = Ok ([(7, 1, 10)], [[(true, false)]]).
+Proof. exact legacy_ancestry_multiallelic_refuted_lemma. Qed.
+Print Assumptions C04_legacy_ancestry_multiallelic_refuted.
+
+Example C04_legacy_bp_sample_order_refuted :
+  transform_haps_gen false false true false t_bporder
+    = Ok ([(7, 1, 10)], [1; 2], [[(false, false)]; [(true, true)]])
+  /\ transform_haps t_bporder = Ok ([(7, 1, 10)], [1; 2], [[(true, true)]; [(false, false)]])
+  /\ holds_file (mkf t_bporder (Ok ([(7, 1, 10)], [1; 2], [[(false, false)]; [(true, true)]])) false) = false
+  /\ holds_file (mkf t_bporder (transform_haps t_bporder) false) = true.
+Proof. exact legacy_bp_sample_order_refuted_lemma. Qed.
+Print Assumptions C04_legacy_bp_sample_order_refuted.
+
+Example C04_legacy_repeat_varids_refuted :
+  transform_haps_gen false false false true t_repeat = Err E_Attr
+  /\ transform_haps t_repeat = Ok ([(7, 1, 10)], [1], [[(true, false)]])
+  /\ holds_file (mkf t_repeat (Err E_Attr) true) = false
+  /\ holds_file (mkf t_repeat (transform_haps t_repeat) (warns_missing t_repeat)) = true
+  /\ holds_file (mkf t_repeat (transform_haps t_repeat) false) = false.
+Proof. exact legacy_repeat_varids_refuted_lemma. Qed.
+Print Assumptions C04_legacy_repeat_varids_refuted.
+
+Example C04_hypotheses_satisfiable :
+  has_dup (map gv_id (g_vars G_ex)) = false
+  /\ forallb (hap_presentb G_ex) (real_haps H_ex) = true
+  /\ haps_transform H_ex G_ex
+     = Ok ([(10, 1, 10); (11, 1, 20)], [[(true, false); (true, true)]; [(false, true); (false, true)]])
+  /\ haps_transform_anc H_ex G_ex
+     = Ok ([(10, 1, 10); (11, 1, 20)], [[(true, false); (false, true)]; [(false, true); (false, false)]]).
+Proof. exact hypotheses_satisfiable_lemma. Qed.
+Print Assumptions C04_hypotheses_satisfiable.
+
+Example C04_wf_file_satisfiable :
+  wf_file t_bporder /\ wf_file t_pop
+  /\ transform_haps t_pop = Ok ([(7, 1, 10)], [1; 2], [[(true, false)]; [(false, true)]]).
+Proof. exact wf_file_satisfiable_lemma. Qed.
+Print Assumptions C04_wf_file_satisfiable.
